@@ -229,6 +229,34 @@ func structCrashProperty(t *rapid.T, sc structCrashCfg) {
 	})
 	acts[""] = func(t *rapid.T) {}
 	t.Repeat(acts)
+	// every program ends with a multi-transaction free, so that crash points inside one are always explored
+	if !cut {
+		var big *MNode
+		for _, f := range x.M.LiveKind(nt.NF3REG) {
+			if f.Size > 515*BlockSize {
+				big = f
+			}
+		}
+		if big == nil {
+			if files := x.M.LiveKind(nt.NF3REG); len(files) > 0 {
+				big = files[0]
+				cr.Step(func() error {
+					if x.Write(LiveRef(big), 700*BlockSize, patternData(g.nextTag(), 5000), 5000, nt.FILE_SYNC) != nil {
+						cut = true
+					}
+					return nil
+				})
+			}
+		}
+		if big != nil && !cut {
+			cr.Step(func() error {
+				if x.Remove(LiveRef(big.Parent), big.Name) != nil {
+					cut = true
+				}
+				return nil
+			})
+		}
+	}
 	if err := x.call(func() { x.S.N.VerifWaitShrinkers(); x.S.Stop() }); err != nil {
 		failf(t, prop, map[string]any{"history": x.Log}, "shutdown: %v", err)
 	}
